@@ -348,6 +348,8 @@ fn same_history(plan: &Plan, a: &RunResult, b: &RunResult) -> bool {
         }
         let _ = mock;
         match (x, y) {
+            (Ev::PollEnd { task: t1, ready: r1, leaf_pendings: l1, .. }, Ev::PollEnd { task: t2, ready: r2, leaf_pendings: l2, .. }) => t1 == t2 && r1 == r2 && l1 == l2,
+            (Ev::SyncEnd { task: t1, .. }, Ev::SyncEnd { task: t2, .. }) => t1 == t2,
             (Ev::CallStart { task: t1, method: m1, n: n1, args: a1, flavor: f1, .. }, Ev::CallStart { task: t2, method: m2, n: n2, args: a2, flavor: f2, .. }) => {
                 t1 == t2 && m1 == m2 && n1 == n2 && a1 == a2 && f1 == f2
             }
@@ -623,7 +625,25 @@ pub fn check(args: &[String]) -> i32 {
                         let b = exec::run(&plan, apps, 0, false);
                         stats.det_checked += 1;
                         if !same_history(&plan, &a, &b) {
-                            stats.det_mismatch += 1;
+                            // the executor is deterministic, so a difference means the code under
+                            // test carries state from one execution to the next: judge both
+                            // executions with the oracles first; only an unexplained difference
+                            // is a harness problem
+                            let mut vv = vec![];
+                            for r in [&a, &b] {
+                                if pool.history_oracle {
+                                    vv.extend(oracle::check_history(&plan, r));
+                                }
+                                if pool.alloc_oracle {
+                                    vv.extend(oracle::check_allocs(&plan, r));
+                                }
+                            }
+                            if vv.is_empty() {
+                                stats.det_mismatch += 1;
+                            } else {
+                                found.lock().unwrap().push(Found { run_index: i, plan: plan.clone(), violations: vv, mode_note: String::new() });
+                                stop.store(true, Ordering::Relaxed);
+                            }
                         }
                     }
                     if !v.is_empty() {
@@ -718,7 +738,8 @@ fn coverage_json(property: &str, pool: &Pool, s: &mut Stats, samples: Vec<Value>
         "samples": samples,
         "property": property,
         "build": if UNIMOCK_BUILD { "unimock" } else { "default" },
-        "corpus_slices": if cfg!(feature = "hetero") { "full (homogeneous + heterogeneous signatures)" } else { "FALLBACK: heterogeneous-signature slice compiled out" },
+        "corpus_containers_compiled_out": MODEL.iter().filter(|m| !m.available).map(|m| m.container).collect::<BTreeSet<_>>().len(),
+        "corpus_methods_compiled_out": MODEL.iter().filter(|m| !m.available).map(|m| m.name).collect::<Vec<_>>(),
         "methods_in_pool": pool.methods.len(),
         "methods_called": methods_called,
         "runs": s.runs,
